@@ -14,7 +14,7 @@ if "--tier" in sys.argv:
     args = [a for a in args if a != tier]
 ids = args or sorted(os.path.basename(d) for d in glob.glob("/verif/seeded/C*-*"))
 # changes whose mechanism belongs (also) to another property's check
-EXTRA = {"C01-H": ["C03"], "C03-G": ["C16"], "C06-H": ["C05"], "C08-G": ["C16"], "C16-H": ["C04"], "C08-F": ["C12"], "C05-F": ["C09"], "C01-F": ["C09"], "C02-D": ["C17"], "C14-D": ["C03"], "C08-C": ["C10"], "C08-D": ["C14"], "C04-C": ["C09"], "C07-D": ["C03", "C18"], "C06-D": ["C05"]}
+EXTRA = {"C01-H": ["C03"], "C03-G": ["C16"], "C06-H": ["C05"], "C08-G": ["C16"], "C16-H": ["C04"], "C08-F": ["C12"], "C05-F": ["C09"], "C01-F": ["C09"], "C02-D": ["C17"], "C14-D": ["C03"], "C08-C": ["C10"], "C08-D": ["C14"], "C04-C": ["C09"], "C07-D": ["C03", "C18"], "C06-D": ["C05"], "C01-K": ["C16"], "C01-L": ["C03"], "C02-L": ["C09"], "C17-J": ["C02", "C15"]}
 WT, VC = f"/tmp/sm_repo_{os.getpid()}", f"/tmp/sm_verif_{os.getpid()}"
 
 
